@@ -22,7 +22,7 @@ def currentCfg : Cfg := {
   extInputFieldExtended := true,
   cloneRegsDeep := true,
   cloneRegsFiltered := true,
-  cloneRegsByValue := true,
-  extKeepRegs := true
+  cloneRegsByValue := false,
+  extKeepRegs := false
 }
 end PyGql.Generated.HeapCfg
